@@ -391,37 +391,38 @@ def s10_region(bpj, harvest):
 
 
 def s16_region(bpj, harvest):
-    """known finding S16: the conflict graph -- producers of one signal name that share a consumer must
-    arrive on different colours -- is not 2-colourable (e.g. three independent producers of one signal at
-    one consumer, an odd cycle across consumers, or two groups that must be kept apart at one consumer but
-    share a producer); the compiler only logs this and proceeds.
-    Producers summed on purpose by one wire merge count as one."""
+    """known finding S16: the colouring constraints of the compiler's own logical edges cannot be met with two
+    colours.  Constraints: the members of one wire merge share a colour (they are one operand); producers (or
+    merges) of one signal name that reach the same consumer as different operands must differ.  Unsatisfiable
+    when two operands of one consumer share a producer, when merge-mates must differ at another consumer, or
+    when the difference graph over the merged classes has an odd cycle (e.g. three independent producers of one
+    signal at one consumer).  The compiler only logs this and proceeds."""
+    dsu = DSU()
     groups = {}
-    members = {}
     for src, snk, sig, col, *m in harvest["edges"]:
         mid = m[0] if m else None
-        groups.setdefault((snk, sig), set()).add(("merge", mid, sig) if mid else ("src", src, sig))
-        if mid:
-            members.setdefault(("merge", mid, sig), set()).add(src)
-    # two groups that must be kept apart at one consumer but contain the same producer (a producer has one
-    # colour): no assignment of colours can separate them
-    for nodes in groups.values():
-        nodes = sorted(nodes)
-        for i, a in enumerate(nodes):
-            for b_ in nodes[i + 1:]:
-                ma = members.get(a, {a[1]} if a[0] == "src" else set())
-                mb = members.get(b_, {b_[1]} if b_[0] == "src" else set())
-                if ma & mb:
-                    return True
+        key = ("merge", mid, sig) if mid else ("src", src, sig)
+        groups.setdefault((snk, sig), {}).setdefault(key, set()).add((src, sig))
+        dsu.find((src, sig))
+    # merge-mates share a colour
+    for per_sink in groups.values():
+        for key, srcs in per_sink.items():
+            srcs = sorted(srcs)
+            for s_ in srcs[1:]:
+                dsu.union(srcs[0], s_)
     adj = {}
-    for nodes in groups.values():
-        nodes = sorted(nodes)
-        for a in nodes:
-            adj.setdefault(a, set())
-        for i, a in enumerate(nodes):
-            for b_ in nodes[i + 1:]:
-                adj[a].add(b_)
-                adj[b_].add(a)
+    for per_sink in groups.values():
+        classes = []
+        for key, srcs in sorted(per_sink.items()):
+            classes.append({dsu.find(s_) for s_ in srcs})
+        for i, a in enumerate(classes):
+            for b_ in classes[i + 1:]:
+                if a & b_:
+                    return True   # two operands that must differ contain producers that must agree
+                for x in a:
+                    for y in b_:
+                        adj.setdefault(x, set()).add(y)
+                        adj.setdefault(y, set()).add(x)
     colour = {}
     for start in adj:
         if start in colour:
